@@ -10,6 +10,7 @@ import (
 	"encoding/json"
 	"fmt"
 	"sort"
+	"sync"
 	"time"
 
 	"cosmossdk.io/log"
@@ -81,6 +82,9 @@ type Env struct {
 	BlockModules []string
 
 	Opts EnvOptions
+
+	// Trace, when set, records every transaction and block step executed on the main path (conformance pass).
+	Trace *Tracer
 }
 
 // EnvOptions configure the genesis of a harness chain.
@@ -103,14 +107,34 @@ type EnvOptions struct {
 	KeepHostClockGenesis bool
 }
 
-// Addr returns the deterministic account address for a name.
+// Addr returns the deterministic account address for a name: the address of PrivKey(name), so that the
+// conformance pass can sign real transactions for every harness account.
 func Addr(name string) sdk.AccAddress {
-	h := sha256.Sum256([]byte("verif/acct/" + name))
-	return sdk.AccAddress(h[:20])
+	namesMu.Lock()
+	defer namesMu.Unlock()
+	if a, ok := addrByName[name]; ok {
+		return a
+	}
+	a := sdk.AccAddress(PrivKey(name).PubKey().Address())
+	addrByName[name] = a
+	nameByAddr[string(a)] = name
+	return a
 }
 
-// PrivKey returns the deterministic secp256k1 key for a name (used by the ABCI conformance pass;
-// note Addr(name) is NOT derived from this key — conformance uses KeyAddr).
+var (
+	namesMu    sync.Mutex
+	addrByName = map[string]sdk.AccAddress{}
+	nameByAddr = map[string]string{}
+)
+
+// NameOf returns the harness account name of an address ("" if it is not a harness account).
+func NameOf(addr []byte) string {
+	namesMu.Lock()
+	defer namesMu.Unlock()
+	return nameByAddr[string(addr)]
+}
+
+// PrivKey returns the deterministic secp256k1 key of a harness account.
 func PrivKey(name string) *secp256k1.PrivKey {
 	h := sha256.Sum256([]byte("verif/key/" + name))
 	return &secp256k1.PrivKey{Key: h[:]}
